@@ -16,7 +16,8 @@ RULE = ('histories of up to 70 operations on a full in-process client (real cond
         'controllable clock; the harness plays the driver): scripted boundary histories for every clause (duplicate / late / conflicting / '
         'foreign-kind / unknown-id answers, time-out boundary t0+T and t0+T+1, error-once, release, close) followed by random histories mixing '
         '1-4 publications, exclusive publications, subscriptions, counters and destinations with answers in any order, lookups, handle drops, '
-        'clock jumps and close; a case is non-trivial when it contains at least one answer event and one lookup; distinct = distinct histories')
+        'clock jumps and close; in about a tenth of the random histories (and three scripted ones) handles are dropped while another thread holds the conductor mutex '
+        '(harness ops Dp/Dx/Ds/Dc: helper thread locks, signals, holds 150 ms - same expected observation as the plain drop); a case is non-trivial when it contains at least one answer event and one lookup; distinct = distinct histories')
 ASSUMPTIONS = [
     'the capacity arithmetic of the command ring is C06\'s: here the ring either has room (the harness drains it after every operation) or, between SetRingFull true / false, refuses every command; strings fit the 512-byte scratch buffer (C13)',
     'driver events are well formed: ASCII strings, counter ids inside the counters buffer, an existing log file with legal geometry, '
